@@ -142,7 +142,6 @@ type Store[K comparable, V any] struct {
 	ctx               context.Context
 	cancel            context.CancelFunc
 	maintenanceTicker *time.Ticker
-	waitChan          chan bool
 }
 
 type StoreOptions[K comparable, V any] struct {
@@ -202,7 +201,6 @@ func NewStore[K comparable, V any](options *StoreOptions[K, V]) *Store[K, V] {
 		cost:            costfn,
 		secondaryCache:  options.SecondaryCache,
 		probability:     options.Probability,
-		waitChan:        make(chan bool),
 	}
 	if options.EntryPool {
 		s.entryPool = &sync.Pool{New: func() any { return &Entry[K, V]{} }}
@@ -752,19 +750,21 @@ func (s *Store[K, V]) sinkWrite(item WriteBufItem[K, V]) {
 }
 
 func (s *Store[K, V]) drainWrite() {
-	var wait bool
 	for _, item := range s.writeBuffer {
 		if item.code == WAIT {
-			wait = true
 			continue
 		}
 		s.sinkWrite(item)
 	}
 
-	s.writeBuffer = s.writeBuffer[:0]
-	if wait {
-		s.waitChan <- true
+	// wake up all Wait callers of this batch, each caller has its own channel
+	// so the maintenance goroutine never blocks here.
+	for _, item := range s.writeBuffer {
+		if item.code == WAIT {
+			close(item.done)
+		}
 	}
+	s.writeBuffer = s.writeBuffer[:0]
 }
 
 func (s *Store[K, V]) maintenance() {
@@ -981,10 +981,12 @@ func (s *Store[K, V]) processSecondary() {
 	}
 }
 
-// Wait blocks until the write channel is drained.
+// Wait blocks until all writes queued before this call are applied to the policy.
+// It's safe to call Wait from multiple goroutines concurrently.
 func (s *Store[K, V]) Wait() {
-	s.writeChan <- WriteBufItem[K, V]{code: WAIT}
-	<-s.waitChan
+	done := make(chan struct{})
+	s.writeChan <- WriteBufItem[K, V]{code: WAIT, done: done}
+	<-done
 }
 
 func (s *Store[K, V]) Recover(version uint64, reader io.Reader) error {
